@@ -30,6 +30,9 @@ type c16Conn struct {
 	AfterMs   int    `json:"client_acts_after_ms,omitempty"` // 0: nothing; else the client acts this long after shutdown began
 	AfterAct  string `json:"client_action,omitempty"`        // send | close
 	Requests  int    `json:"requests_before,omitempty"`      // completed requests before shutdown
+	// Pipelined (handler phase): the client has already sent its next request when Shutdown is called, so the server's
+	// read loop holds a request nobody has taken yet
+	Pipelined bool `json:"next_request_already_sent,omitempty"`
 }
 type c16Case struct {
 	Conns []c16Conn `json:"connections"`
@@ -215,6 +218,11 @@ func c16Bubble(c c16Case) c08Result {
 			cl.inflight = rid
 			_, _ = conn.Write(b)
 			cl.sent++
+			if cc.Pipelined {
+				synctest.Wait() // the first request is in its handler
+				b2, _ := mkReq(0, true)
+				_, _ = conn.Write(b2)
+			}
 		case "stalled-response":
 			cl.p.stalled.Store(true)
 			// the client stops reading and the server-to-client direction gets a tiny window, so that the response write blocks
@@ -462,7 +470,7 @@ func c16Bubble(c c16Case) c08Result {
 
 func TestC16Shutdown(t *testing.T) {
 	const name = "TestC16Shutdown"
-	rec := evid.New("C16", name, "0..6 connections, each in a drawn phase when Shutdown is called (idle, partial message sent, request in a handler of 0 / 1 s / 2.9 s / 3.1 s / 10 s honouring or ignoring its context, response blocked on a non-reading client, "+
+	rec := evid.New("C16", name, "0..6 connections, each in a drawn phase when Shutdown is called (idle, partial message sent, request in a handler of 0 / 1 s / 2.9 s / 3.1 s / 10 s honouring or ignoring its context (optionally with the next request already sent and waiting in the server's read loop), response blocked on a non-reading client, "+
 		"connecting during shutdown, accepted but not yet registered by the accept loop when Shutdown starts (the loop is held at a yield point and released once Shutdown waits or has returned), already closed, connect hook failing), optionally a second, overlapping Shutdown call 1 / 500 / 2000 / 3500 ms after the first, with 0..2 completed requests before and an optional client action (send more / close) at 0.5 / 2 / 3.5 s after shutdown began; synctest bubble (the 3 s grace period is exact and free); "+
 		"oracle at the instant Shutdown returns and after 5 more seconds: listener closed, Serve returned ErrShutdown, no handler running or started later, census 0, every in-flight request answered or cancelled no earlier than 3 s, exactly one terminate hook per successful connect hook after the connection's last handler, none otherwise; "+
 		"non-trivial = a connection mid-handler and another connection in a different phase; distinct by case").Attach(t)
@@ -486,6 +494,7 @@ func TestC16Shutdown(t *testing.T) {
 			if cc.Phase == "handler" {
 				cc.HandlerMs = rapid.SampledFrom([]int{0, 1000, 2900, 3100, 10000}).Draw(rt, "ms")
 				cc.Honours = rapid.Bool().Draw(rt, "honours")
+				cc.Pipelined = rapid.IntRange(0, 2).Draw(rt, "pipelined") == 0
 				handler = true
 			} else {
 				other = true
